@@ -43,6 +43,11 @@ def interesting(node):
             for t in tg:
                 if _dn(t) in TRACKED:
                     return True
+            v = n.value
+            while isinstance(v, ast.Call) and _dn(v.func) in ("str", "Path") and len(v.args) == 1 and not v.keywords:
+                v = v.args[0]
+            if v is not None and _dn(v) in TRACKED:          # a local alias of a tracked path
+                return True
     return False
 
 
@@ -152,6 +157,13 @@ class Walker:
             return []
         if t == "continue_file" and isinstance(v, ast.Constant) and v.value is True:
             return ["ISetContinue"]
+        if t is not None and "." not in t:
+            # a local name for one of the tracked paths (out_path = Path(out_file_path)): an alias with the same value
+            try:
+                self.env[t] = self.path(v)
+                return []
+            except Refuse:
+                self.env.pop(t, None)
         if isinstance(v, ast.Call):
             d = _dn(v.func)
             if d == "_read_first_row" and len(v.args) == 1 and not v.keywords:
